@@ -8,7 +8,7 @@ from vf.props.common import assume, cover
 
 # event classes that need a connected transport
 MSG_EVENTS = ('open_ok', 'open_badver', 'open_badas', 'open_hold12', 'open_badparam', 'open_short', 'ka', 'upd',
-              'upd_bad', 'notif_ver', 'notif', 'rr', 'rr128', 'hdr_marker', 'hdr_len', 'hdr_type', 'badlen')
+              'upd_bad', 'upd_trunc', 'notif_ver', 'notif', 'rr', 'rr128', 'hdr_marker', 'hdr_len', 'hdr_type', 'badlen')
 
 EVENTS_BY_STATE = {
     S.IDLE: ['start_idlehold', 'manual_start', 'manual_stop'],
@@ -25,7 +25,8 @@ BADLEN = [(4, 20), (4, 23), (2, 19), (2, 22), (3, 19), (3, 20), (5, 19), (5, 22)
 def oracle_event(ev):
     """(oracle event class, expected subcode or None)"""
     m = {'open_badver': ('open_bad', 1), 'open_badas': ('open_bad', 2), 'open_hold12': ('open_bad', 6),
-         'open_badparam': ('open_bad', 4), 'hdr_marker': ('hdr', 1), 'hdr_len': ('hdr', 2), 'hdr_type': ('hdr', 3), 'badlen': ('hdr', 2)}
+         'open_badparam': ('open_bad', 4), 'hdr_marker': ('hdr', 1), 'hdr_len': ('hdr', 2), 'hdr_type': ('hdr', 3), 'badlen': ('hdr', 2),
+         'upd_trunc': ('upd_bad', None)}
     return m.get(ev, (ev, None))
 
 
@@ -75,6 +76,13 @@ def message_for(ev, w, a, b, c):
         # ORIGIN with an undefined value (a malformation the decoder checks)
         assume(3 <= a < 256)
         return S.frame(2, struct.pack('!HH', 0, 4) + bytes([0x40, 1, 1, a]))
+    if ev == 'upd_trunc':
+        # an UPDATE of legal frame length whose withdrawn-routes length (a) or attribute length (b) runs past its end
+        assume(0 <= a < 65536 and 0 <= b < 65536)
+        # 6 body octets: either the withdrawn length leaves no room for the attribute-length field, or (no withdrawn
+        # routes) the attribute length is larger than what follows it
+        assume(a >= 3 or (a == 0 and b >= 3))
+        return S.frame(2, bytes([a // 256, a % 256, b // 256, b % 256, 0, 0]))
     if ev == 'notif_ver':
         return S.rfc_notification(2, 1)
     if ev == 'notif':
@@ -170,7 +178,7 @@ TIMER_CLASS = {'connect_retry': 'crt', 'hold': 'holdt', 'keepalive': 'kat', 'idl
 
 
 DEFAULT_VALS = {'open_ok': [90, 0x0A000002, 0], 'open_badver': [3, 90, 0], 'open_badas': [65009, 65009, 0],
-                'open_hold12': [1, 0, 0], 'open_badparam': [1, 0, 0], 'upd_bad': [7, 0, 0], 'notif': [6, 2, 0],
+                'open_hold12': [1, 0, 0], 'open_badparam': [1, 0, 0], 'upd_bad': [7, 0, 0], 'upd_trunc': [3, 0, 0], 'notif': [6, 2, 0],
                 'rr': [1, 1, 0], 'rr128': [1, 1, 0], 'hdr_marker': [0, 0, 0], 'hdr_len': [18, 0, 0],
                 'hdr_type': [9, 0, 0]}
 
